@@ -105,7 +105,7 @@ def main():
              "kind_free_text": "Go driver: sharded worker processes with journals; monitors = reference model (internal/lang), independent bytecode codec+verifier (internal/bc), reader scripts / goroutine monitor (internal/mon), Go race detector build"},
         ],
         "checks": checks,
-        "notes": "Technique family: runtime monitoring. See DESIGN.md (sections 11-13: as built, results on the pinned tree, 198 seeded changes in five rounds). 14 genuine defects of the pinned tree were repaired by fix: commits in /repo and are recorded as fixed: entries in known_findings.json; there is no known (unrepaired) finding. The level_claimed texts give the core of each check; evidence/<id>.json carries the full rule incl. the workload extensions made after each round of seeded changes.",
+        "notes": "Technique family: runtime monitoring. See DESIGN.md (sections 11-13: as built, results on the pinned tree, 238 seeded changes in six rounds). 14 genuine defects of the pinned tree were repaired by fix: commits in /repo and are recorded as fixed: entries in known_findings.json; there is no known (unrepaired) finding. The level_claimed texts give the core of each check; evidence/<id>.json carries the full rule incl. the workload extensions made after each round of seeded changes.",
         "not_applicable": na,
     }
     if not na:
